@@ -222,7 +222,8 @@ def rule_K2(ctx, R):
     # who writes the flag: decided on the paths of every entry function (the cell type's private methods, closures passed to
     # `LocalKey::with`, associated-function wrappers ... are all seen inlined)
     from rules_ts import entry_fns
-    from rules_ts2 import key_construction_sites, observed_clear_then_set
+    from rules_ts2 import key_construction_sites, observed_clear_then_set, norm_cell_val, key_flag_clear_value
+    CLEAR = key_flag_clear_value(ctx)
     from interp import val_contains
     a = F.adts.get(KEY)
     dropfn = F.fn(a["drop_fn"]) if a and a.get("drop_fn") else None
@@ -248,8 +249,9 @@ def rule_K2(ctx, R):
             ws = flag_writes(p, I)
             if not ws:
                 continue
-            clears = [e for e in ws if (e.get("val") or e.get("new")) == ("const", False)]
-            sets = [e for e in ws if (e.get("val") or e.get("new")) == ("const", True)]
+            nv = {id(e): norm_cell_val(p, e.get("val") or e.get("new")) for e in ws}
+            clears = [e for e in ws if nv[id(e)] == CLEAR]
+            sets = [e for e in ws if nv[id(e)] is not None and nv[id(e)] != CLEAR]
             other = [e for e in ws if e not in clears and e not in sets]
             bad = None
             if other:
@@ -261,7 +263,7 @@ def rule_K2(ctx, R):
                 bad = ("flag-access", "ThreadKey's Drop sets the key flag")
             elif sets:
                 built = p.kind == "ret" and p.value is not None and val_contains(p.value, lambda x: x[0] == "agg" and x[2] == KEY)
-                if built and not observed_clear_then_set(p):
+                if built and not observed_clear_then_set(p, CLEAR):
                     bad = ("test-and-set", "flag is set but success is not decided by the previous value of the flag")
                 if not any(val_contains(q.value, lambda x: x[0] == "agg" and x[2] == KEY) for q in paths if q.kind == "ret" and q.value):
                     bad = ("set-caller", "the key flag is set by %s, which never yields a key" % f["path"])
@@ -281,7 +283,7 @@ def rule_K2(ctx, R):
             ok = True
             for p in paths:
                 if p.kind == "ret":
-                    sets = [e for e in flag_writes(p, I) if (e.get("val") or e.get("new")) == ("const", False)]
+                    sets = [e for e in flag_writes(p, I) if norm_cell_val(p, e.get("val") or e.get("new")) == CLEAR]
                     if len(sets) != 1:
                         ok = False
                         res.bad(Violation("K2", dropfn["path"], "drop-clears-once", "Drop for ThreadKey clears the flag %d "
